@@ -827,7 +827,12 @@ inline bool lines_S(Rng& r, uint64_t idx)
   SW& a = run.spawn();
   uint32_t const n = static_cast<uint32_t>(r.range(10, 60));
   std::vector<std::pair<uint16_t, std::string>> sent;
-  for (uint32_t i = 0; i < n && !run.failed; ++i)
+  sent.reserve(256);
+  // called twice: before and AFTER the statements with named arguments / tags / runtime metadata below (the backend's
+  // per-thread buffer slots are recycled: a slot that carried named arguments is later filled by a plain multi-line one)
+  auto log_lines = [&](uint32_t count)
+  {
+  for (uint32_t i = 0; i < count && !run.failed; ++i)
   {
     // every arrangement of newlines: leading, trailing, doubled, only newlines, empty
     std::string m;
@@ -849,6 +854,8 @@ inline bool lines_S(Rng& r, uint64_t idx)
     (void)mp;
     if (r.chance(1, 3)) run.poll();
   }
+  };
+  log_lines(n);
   // ---- metadata attributes end to end: runtime-supplied source metadata, tags, named args in the pattern
   std::vector<std::string> meta_want;
   {
@@ -900,6 +907,7 @@ inline bool lines_S(Rng& r, uint64_t idx)
       if (r.chance(1, 3)) run.poll();
     }
   }
+  log_lines(static_cast<uint32_t>(r.range(5, 40)));
   bool ok = !run.failed && run.drain("lines_S");
   if (ok)
   {
